@@ -21,7 +21,7 @@ RULE = ('source port trees to depth 3 over names {a, ab, abc, b, x} (so names ar
         'selects a strict subset')
 ASSUMPTIONS = ['an empty include list is treated by the code as "no filter" and is outside the quantifier', 'reference model written from the property statement']
 REQUIRED = ['exposes', 'include_cases', 'exclude_cases', 'prefix_sibling_cases', 'nested_rule_cases', 'attr_checks', 'mutation_probes', 'both_rejected',
-            'namespace_option_cases', 'preexisting_kept', 'options_reused', 're_exposures']
+            'namespace_option_cases', 'preexisting_kept', 'options_reused', 're_exposures', 'own_port_under_excluded_name']
 BOUNDS = {'quick': '40 trees x all single rules and pairs', 'thorough': '600 trees, rule sets up to 3'}
 NAMES = ['a', 'ab', 'abc', 'b', 'x']
 
@@ -251,6 +251,14 @@ def run_case(case):
         # a namespace of the destination's own that has no ports yet, with properties that are not the defaults
         droot['emp'] = PortNamespace('emp', dynamic=True, help='mine-emp', required=False)
     emp_before = droot['emp'] if case['pre'] else None
+    own_excluded = []
+    if case['pre'] and case['mode'] == 'exclude' and not case['target']:
+        # the destination has a port of its own under the name of a source port that the rules exclude: not being exposed, the
+        # source port does not replace it -- and the exposure does not remove it either
+        for r in case['rules']:
+            if '.' not in r:
+                (dest.input if kind == 'in' else dest.output)(r, help='mine-' + r, required=False)
+                own_excluded.append(r)
     pre_desc = describe(droot)
     expose = dest.expose_inputs if kind == 'in' else dest.expose_outputs
     obs = {'exposes': 1, 'include_cases': 0, 'exclude_cases': 0, 'prefix_sibling_cases': 0, 'nested_rule_cases': 0, 'attr_checks': 0,
@@ -313,7 +321,7 @@ def run_case(case):
             sorted(missing), mode, rules, sorted(allp))))
     # attributes of copied ports equal the source's
     src_tree_desc = src_before
-    diffs = _attr_diffs(real, src_tree_desc)
+    diffs = _attr_diffs({k: v for k, v in real.items() if k not in own_excluded}, src_tree_desc)
     obs['attr_checks'] = len(real_names & exp_names)
     for path, k, bad in diffs[:1]:
         viol.append(V('attr-differs', 'attr-differs:%s:%s' % (k, ','.join(bad)), 'copied %s %s differs from the source in %s' % (k, path, bad)))
@@ -379,6 +387,11 @@ def run_case(case):
                     a = [a[0], a[1], {k: v for k, v in a[2].items() if k != 'sub'}]
                 if a != b and not (name in exp_names and not case['target']):
                     viol.append(V('preexisting-changed', 'preexisting-changed', 'pre-existing destination port %s changed/removed' % name))
+        for name in own_excluded:
+            obs['own_port_under_excluded_name'] = 1
+            if now.get(name) != pre_desc.get(name):
+                viol.append(V('preexisting-changed', 'preexisting-changed:excluded-name', 'the destination\'s own port %s, named like an excluded source port, was %s by the exposure' % (
+                    name, 'removed' if name not in now else 'changed')))
         obs['preexisting_kept'] = 1
     # independence: mutate the source, the destination must not change; then the other way round
     before = describe(target_ns)
